@@ -251,12 +251,29 @@ def crosscheck_real_lua(results):
     return {"available": True, "dissections_compared": compared, "agree": agree}
 
 
+def mc_dissect_machine(rep, tier):
+    """The operational dissector (offset threaded through sub-dissectors that return it, subtrees, key locals) attributes
+    exactly the leaf segments of Wire.tla; each deviation switch (a defect found in the emitted Lua) must be refuted."""
+    base = open(os.path.join(tlc.SPEC, "MCDissectMachine.cfg")).read()
+    cfg = base if tier == "thorough" else base.replace('Shapes = {"S1", "S2"}', 'Shapes = {"S2"}')
+    r = tlc.run_tlc("DissectMachine", cfg, workers=8, timeout=3000, heap="8g")
+    tlc.require_ok(r, "DissectMachine (AttributesSegments, EndsAtMessageEnd, RangesInside, OffsetMonotone)")
+    rep.tlc(r)
+    for sw, shapes in (("DropOffsetAfterObject", '{"S1"}'), ("DropOffsetAfterMatch", '{"S2"}'), ("OneByteSubtree", '{"S2"}')):
+        s = tlc.run_tlc("DissectMachine", base.replace('Shapes = {"S1", "S2"}', "Shapes = " + shapes).replace(sw + " = FALSE", sw + " = TRUE"),
+                        workers=8, timeout=900, heap="8g")
+        if not s.violated:
+            raise Infra("DissectMachine with %s violates nothing: the specification is vacuous" % sw)
+        rep.cov.setdefault("spec_sensitivity", {})[sw] = s.violated
+
+
 def check_c15(tier):
     rep = Report("C15", tier, "model_checking")
     if langs.get("lua") is None:
         raise Infra("no Lua plug-in")
     from props_codec import mc_wire
     mc_wire(rep, "quick")
+    mc_dissect_machine(rep, tier)
     progs, results, tmp = run_family(tier, ["lua"], None, rep)
     events, meta = codec.lua_trace_of(results)
     rs, verdicts = codec.validate(events, meta, shards=12, module="TraceDissect")
